@@ -165,7 +165,7 @@ class Layout:
         return "".join(out)
 
 
-def present_quoted(text, rng, dq=True, st=None, p_fold=0.4, p_esc=0.3, p_escbrk=0.08):
+def present_quoted(text, rng, dq=True, st=None, p_fold=0.4, p_esc=0.3, p_escbrk=0.08, p_hard=0.7):
     st = st if st is not None else Counter()
     q = "\"" if dq else "'"
     n = len(text)
@@ -205,7 +205,7 @@ def present_quoted(text, rng, dq=True, st=None, p_fold=0.4, p_esc=0.3, p_escbrk=
             run = lf_run(i)
             can_fold = not need_nb and not prev_lit_blank
             if dq:
-                if can_fold and rng.random() < 0.7:
+                if can_fold and rng.random() < p_hard:
                     k = rng.randint(1, run)
                     brk("fold", k)
                     st["hard-fold"] += 1
@@ -251,7 +251,7 @@ def present_quoted(text, rng, dq=True, st=None, p_fold=0.4, p_esc=0.3, p_escbrk=
             prev_lit_blank = c in BLANK
         need_nb = False
         i += 1
-    if dq and not need_nb and rng.random() < 0.03:
+    if dq and not need_nb and p_escbrk > 0 and rng.random() < 0.03:
         brk("esc", 0)
         st["escaped-break-at-end"] += 1
     cur.append(q)
@@ -589,7 +589,7 @@ def build_case(text, style, ctxf, rng, st):
             return None
         if not ctx["multi"] and lay.breaks:
             # implicit keys are single-line: present again without line structure
-            lay = present_quoted(text, rng, style == "D", st, p_fold=0.0, p_escbrk=0.0)
+            lay = present_quoted(text, rng, style == "D", st, p_fold=0.0, p_escbrk=0.0, p_hard=0.0)
             if lay is None or lay.breaks:
                 return None
     src = lay.render(ctx["n"])
@@ -597,8 +597,8 @@ def build_case(text, style, ctxf, rng, st):
         return None
     doc = ctx["pre"] + src + ctx["post"]
     expected = ["SS"] + ctx["before"] + [("SC", style, text)] + ctx["after"] + ["SE"]
-    return dict(doc=doc, expected=expected, text=text, style=style, context=ctx["name"], src=src,
-                nbreaks=len(lay.breaks), multi_key=bool(lay.breaks) and ctx.get("keymulti", False))
+    return dict(doc=doc, expected=expected, text=text, style=style, context=ctx["name"], src=src, flow=ctx["flow"],
+                post=ctx["post"], nbreaks=len(lay.breaks))
 
 
 # ------------------------------------------------------------------------------------------------
@@ -635,15 +635,42 @@ def load_known():
     return out
 
 
-# decidable predicates of the recorded classes (on the case: target text, style, context, rendered scalar)
-KNOWN_PREDICATES = {}
+# ------------------------------------------------------------------------------------------------
+# recorded finding classes: decidable predicates on the generated case, and what the implementation is then
+# required to do (anything else stays a violation)
+# ------------------------------------------------------------------------------------------------
+INDENTED_MARKER = re.compile(r"(?m)^[ \t]+(---|\.\.\.)([ \t\n]|\Z)")
+
+
+def known_indented_marker(c):
+    """a plain scalar one of whose physical lines starts, after at least one blank of indentation, with `---` or `...`
+    followed by a blank, a break or the end of input (all other lines of the generated documents are fixed text)"""
+    return c["style"] == "P" and bool(INDENTED_MARKER.search(c["doc"].replace("\r\n", "\n").replace("\r", "\n")))
+
+
+def known_dash_before_flow_indicator(c):
+    """a plain scalar in a flow collection whose last word is a lone `-` (preceded by a blank or a fold) and which is
+    immediately followed by `,` `]` or `}`"""
+    t = c["text"]
+    return (c["style"] == "P" and c["flow"] and len(t) >= 2 and t[-1] == "-" and t[-2] in " \t\n"
+            and c["post"][:1] in (",", "]", "}"))
+
+
+KNOWN_PREDICATES = {
+    # class -> (predicate on the case, required behaviour of the implementation for cases of the class)
+    "plain-indented-document-marker": (known_indented_marker,
+                                       lambda got, fin: fin.startswith("ERR@") and "unexpected end of plain scalar" in fin),
+    "plain-flow-dash-before-flow-indicator": (known_dash_before_flow_indicator,
+                                              lambda got, fin: fin.startswith("ERR@") and "plain scalar cannot start with '-'" in fin),
+}
 
 
 def targets(tier, rng):
+    """(label, iterable of target strings); the exhaustive part is a generator (614k strings in the thorough tier)"""
     groups = []
     maxlen = 3 if tier == "quick" else 4
-    groups.append(("exhaustive<=%d/%d" % (maxlen, len(ALPHA)), list(gen.exhaustive(ALPHA, maxlen))))
     groups.append(("words", list(WORDS)))
+    groups.append(("exhaustive<=%d/%d" % (maxlen, len(ALPHA)), gen.exhaustive(ALPHA, maxlen)))
     rnd = []
     for _ in range(6000 if tier == "quick" else 150000):
         k = rng.randint(4, 24)
@@ -654,122 +681,170 @@ def targets(tier, rng):
             rnd.append("".join(rng.choice(ALPHA_WIDE) for _ in range(k)))
         elif r < 0.85:
             # word-like: mostly letters with single spaces / newlines (folding targets, plain-safe)
-            rnd.append("".join(rng.choice("ab\u00e9-:#.,a a a\n") for _ in range(k)).strip(" \n") or "a")
+            rnd.append("".join(rng.choice("abé-:#.,a a a\n") for _ in range(k)).strip(" \n") or "a")
         else:
             rnd.append("".join(rng.choice(WORDS + ALPHA) for _ in range(rng.randint(2, 6))))
     groups.append(("random-4..24", rnd))
     longs = []
     for _ in range(40 if tier == "quick" else 400):
         k = rng.choice([127, 128, 129, 255, 256, 257, 500, 900])
-        longs.append("".join(rng.choice("ab \u00e9a:a-a\U0001f600") for _ in range(k)).strip() or "a")
+        longs.append("".join(rng.choice("ab éa:a-a\U0001f600") for _ in range(k)).strip() or "a")
     groups.append(("long-127..900 (plain chunk boundary of 128)", longs))
     return groups
+
+
+STYLE_NAME = {"D": "double-quoted", "S": "single-quoted", "P": "plain"}
+BATCH = 150000
+
+
+class Tally:
+    def __init__(self):
+        self.st = Counter()              # presenter choices
+        self.ctx = Counter()
+        self.styles = Counter()
+        self.skipped = Counter()
+        self.outcome = Counter()
+        self.kn_hits = Counter()
+        self.kn_example = {}
+        self.multi = 0
+        self.ndocs = 0
+        self.selfcheck_bad = 0
+        self.ci = 0
+        self.sample_pool = []
+
+
+def make_cases(t, rng, ta, docs_seen):
+    out = []
+    plan = (("D", 2), ("S", 1), ("P", 2)) if len(t) <= 4 else (("D", 3), ("S", 2), ("P", 3))
+    for style, reps in plan:
+        for _ in range(reps):
+            ctxf = CONTEXTS[ta.ci % len(CONTEXTS)]
+            ta.ci += 1
+            c = build_case(t, style, ctxf, rng, ta.st)
+            if c is None:
+                ta.skipped[style] += 1
+                continue
+            h = hash(c["doc"])
+            if h in docs_seen:
+                continue
+            docs_seen.add(h)
+            out.append(c)
+    return out
+
+
+def run_batch(cases, res, ta, known):
+    """both sides on one batch of cases; the verdicts go into res / ta"""
+    for c in cases:
+        style, t = c["style"], c["text"]
+        back = ref_read_plain(c["src"]) if style == "P" else ref_read_quoted(c["src"], style == "D")
+        if back != t:
+            ta.selfcheck_bad += 1
+            if ta.selfcheck_bad <= 10:
+                res.add_tie_break("presenter self-check: the reference reader does not recover the target from the presentation",
+                                  target=t, style=style, src=c["src"], reference_reads=back)
+        ta.ctx[c["context"]] += 1
+        ta.styles[style] += 1
+        ta.multi += 1 if c["nbreaks"] else 0
+    ta.ndocs += len(cases)
+    if not (res.harness_ok and res.model_ok):
+        return
+    lines = [enc(c["doc"]) for c in cases]
+    impl = {b: run_hx(["events", b], lines) for b in ("str", "iter")}
+    model = run_mx(["events", "str"], lines)
+    for i, c in enumerate(cases):
+        res.evaluations += 1
+        src = c["src"]
+        if c["nbreaks"] or (c["style"] == "D" and "\\" in src) or (c["style"] == "S" and "''" in src[1:-1]):
+            res.nontrivial.add(hash(c["doc"]))
+        cls = None
+        for k in known:
+            pr = KNOWN_PREDICATES.get(k["class"])
+            if pr and pr[0](c):
+                cls = k["class"]
+                break
+        for b in ("str", "iter"):
+            got, fin = project(impl[b][i])
+            if cls is not None:
+                # a recorded finding: the implementation must fail exactly the recorded way
+                if KNOWN_PREDICATES[cls][1](got, fin):
+                    ta.kn_hits[cls] += 1
+                    ta.kn_example.setdefault(cls, (c["doc"], impl[b][i][-120:]))
+                    ta.outcome["known:" + cls] += 1
+                    continue
+                if fin == "OK" and got == c["expected"]:
+                    ta.outcome["ok (in a recorded class: the defect no longer shows)"] += 1
+                    continue
+            elif fin == "OK" and got == c["expected"]:
+                ta.outcome["ok"] += 1
+                continue
+            sc = [e for e in got if isinstance(e, tuple) and e[1] == c["style"]]
+            if fin != "OK":
+                what = "the rendered document is rejected (%s)" % fin[:120]
+            elif [e if isinstance(e, str) else "SC" for e in got] != [e if isinstance(e, str) else "SC" for e in c["expected"]]:
+                what = "the rendered document is read with a different structure"
+            else:
+                what = "scalar text or style differs from the target"
+            ta.outcome["bad"] += 1
+            if len(res.violations) < 200:
+                res.add_violation("%s scalar in context %s (back-end %s): %s" % (STYLE_NAME[c["style"]], c["context"], b, what),
+                                  dict(input=c["doc"], codepoints=lines[i], backend=b, target=c["text"], target_codepoints=enc(c["text"]),
+                                       style=c["style"], context=c["context"], scalar_source=src),
+                                  impl=impl[b][i][-500:], got_scalars=[list(e) for e in sc][:4])
+        me, mf = split_line(model[i])
+        ie, if_ = split_line(impl["str"][i])
+        if me != ie or fin_pos(mf) != fin_pos(if_):
+            ta.outcome["model-mismatch"] += 1
+            if len(res.tie_breaks) < 50:
+                res.add_tie_break("correspondence: model pipeline != implementation (events with spans, verdict)", case=c["doc"],
+                                  model=model[i][-400:], impl=impl["str"][i][-400:])
+    for i in (11, len(cases) // 3, len(cases) // 2, len(cases) - 9):
+        if 0 <= i < len(cases) and len(ta.sample_pool) < 8:
+            c = cases[i]
+            ta.sample_pool.append(dict(target=c["text"], style=c["style"], context=c["context"], document=c["doc"],
+                                       impl=impl["str"][i][-160:]))
 
 
 def check_C04(tier, seed):
     res = Result(PID, tier, seed)
     proof = prepare(PID, res)
     rng = gen.rng_for(seed, PID)
-    st = Counter()
-    seen, tl, dist = set(), [], {}
+    ta = Tally()
+    known = load_known()
+    seen, docs_seen, dist = set(), set(), {}
+    batch = []
+    ntargets = 0
     for label, items in targets(tier, rng):
         k = 0
         for t in items:
-            if t not in seen:
-                seen.add(t)
-                tl.append(t)
-                k += 1
+            if t in seen:
+                continue
+            seen.add(t)
+            k += 1
+            batch += make_cases(t, rng, ta, docs_seen)
+            if len(batch) >= BATCH:
+                run_batch(batch, res, ta, known)
+                batch = []
         dist[label] = k
-    cases, docs_seen = [], set()
-    ctx_count, style_count, skipped = Counter(), Counter(), Counter()
-    ci = 0
-    selfcheck_bad = []
-    for t in tl:
-        plan = [("D", 2), ("S", 1), ("P", 2)] if len(t) <= 4 else [("D", 3), ("S", 2), ("P", 3)]
-        for style, reps in plan:
-            for _ in range(reps):
-                ctxf = CONTEXTS[ci % len(CONTEXTS)]
-                ci += 1
-                c = build_case(t, style, ctxf, rng, st)
-                if c is None:
-                    skipped[style] += 1
-                    continue
-                if c["doc"] in docs_seen:
-                    continue
-                docs_seen.add(c["doc"])
-                # presenter self-check against the reference reader
-                back = ref_read_plain(c["src"]) if style == "P" else ref_read_quoted(c["src"], style == "D")
-                if back != t and len(selfcheck_bad) < 10:
-                    selfcheck_bad.append(dict(target=t, style=style, src=c["src"], reference_reads=back))
-                cases.append(c)
-                ctx_count[c["context"]] += 1
-                style_count[style] += 1
-    for b in selfcheck_bad:
-        res.add_tie_break("presenter self-check: the reference reader does not recover the target from the presentation", **b)
+        ntargets += k
+    if batch:
+        run_batch(batch, res, ta, known)
     res.coverage["input_distribution"] = dict(
-        target_groups=dist, targets=len(tl), documents=len(cases), styles=dict(style_count), contexts=dict(ctx_count),
-        not_presentable=dict(skipped), presenter_choices=dict(st),
-        multi_line_documents=sum(1 for c in cases if c["nbreaks"]),
+        target_groups=dist, targets=ntargets, documents=ta.ndocs, styles=dict(ta.styles), contexts=dict(ta.ctx),
+        not_presentable=dict(ta.skipped), presenter_choices=dict(ta.st), multi_line_documents=ta.multi,
         alphabet=[("U+%04X" % ord(c)) for c in ALPHA])
-    known = load_known()
-    kn_hits = Counter()
-    kn_example = {}
-    if res.harness_ok and res.model_ok:
-        lines = [enc(c["doc"]) for c in cases]
-        impl = {b: run_hx(["events", b], lines) for b in ("str", "iter")}
-        model = run_mx(["events", "str"], lines)
-        outcome = Counter()
-        for i, c in enumerate(cases):
-            res.evaluations += 1
-            if c["nbreaks"] or c["style"] == "D" and "\\" in c["src"] or "''" in c["src"][1:-1]:
-                res.nontrivial.add(c["doc"])
-            for b in ("str", "iter"):
-                got, fin = project(impl[b][i])
-                if fin == "OK" and got == c["expected"]:
-                    outcome["ok"] += 1
-                    continue
-                cls = None
-                for k in known:
-                    pred = KNOWN_PREDICATES.get(k["class"])
-                    if pred and pred(c, got, fin):
-                        cls = k["class"]
-                        break
-                if cls:
-                    kn_hits[cls] += 1
-                    kn_example.setdefault(cls, (c["doc"], impl[b][i][-160:]))
-                    outcome["known:" + cls] += 1
-                    continue
-                sc = [e for e in got if isinstance(e, tuple) and e[1] == c["style"]]
-                if fin != "OK":
-                    what = "the rendered document is rejected (%s)" % fin[:120]
-                elif [e if isinstance(e, str) else "SC" for e in got] != [e if isinstance(e, str) else "SC" for e in c["expected"]]:
-                    what = "the rendered document is read with a different structure"
-                else:
-                    what = "scalar text or style differs from the target"
-                outcome["bad"] += 1
-                res.add_violation("%s scalar in context %s (back-end %s): %s" % (
-                    {"D": "double-quoted", "S": "single-quoted", "P": "plain"}[c["style"]], c["context"], b, what),
-                    dict(input=c["doc"], codepoints=lines[i], backend=b, target=c["text"], target_codepoints=enc(c["text"]),
-                         style=c["style"], context=c["context"], scalar_source=c["src"]),
-                    impl=impl[b][i][-500:], got_scalars=[list(e) for e in sc][:4])
-            me, mf = split_line(model[i])
-            ie, if_ = split_line(impl["str"][i])
-            if me != ie or fin_pos(mf) != fin_pos(if_):
-                res.add_tie_break("correspondence: model pipeline != implementation (events with spans, verdict)", case=c["doc"],
-                                  model=model[i][-400:], impl=impl["str"][i][-400:])
-        res.coverage["outcomes"] = dict(outcome)
-        res.coverage["traces_validated_against_impl"] = len(cases)
-        res.coverage["known_finding_cases"] = dict(kn_hits)
-        for cls, n in kn_hits.items():
-            res.known.append("%s: %d generated cases; e.g. %r -> %s" % (cls, n, kn_example[cls][0], kn_example[cls][1]))
-        for i in (11, len(cases) // 5, len(cases) // 3, len(cases) // 2, 2 * len(cases) // 3, len(cases) - 9):
-            if 0 <= i < len(cases):
-                c = cases[i]
-                res.samples.append(dict(target=c["text"], style=c["style"], context=c["context"], document=c["doc"],
-                                        impl=impl["str"][i][-160:]))
+    res.coverage["exhaustive"] = False
+    res.coverage["outcomes"] = dict(ta.outcome)
+    res.coverage["traces_validated_against_impl"] = res.evaluations
+    res.coverage["known_finding_cases"] = dict(ta.kn_hits)
+    res.coverage["presenter_selfcheck_failures"] = ta.selfcheck_bad
+    for cls, n in sorted(ta.kn_hits.items()):
+        res.known.append("%s: %d runs (cases x back-ends) of the recorded class fail the recorded way; e.g. %r -> %s"
+                         % (cls, n, ta.kn_example[cls][0], ta.kn_example[cls][1]))
+    res.samples = ta.sample_pool
     rule = ("targets: every string of length <= %d over the %d-symbol tricky alphabet, a word list, random strings of length 4-24 "
             "and long strings around the 128-character chunk boundary; each presented 2-3 times per style (double, single, plain "
             "where presentable) with random escape/literal, fold/escaped-break, indentation and padding choices, contexts taken "
-            "round-robin from %d builders; non-trivial = distinct documents whose scalar spans several lines, contains an escape "
-            "or a doubled quote" % (3 if tier == "quick" else 4, len(ALPHA), len(CONTEXTS)))
+            "round-robin from %d builders; evaluations = documents (each run through both back-ends and the model); non-trivial = "
+            "distinct documents whose scalar spans several lines, contains an escape or a doubled quote"
+            % (3 if tier == "quick" else 4, len(ALPHA), len(CONTEXTS)))
     return res.finish(proof, rule)
